@@ -44,8 +44,9 @@ Inductive lop :=
 | LConsume (f : fault)      (* Body(), SwapBody, BodyWriteTo *)
 | LWrap                     (* Response only: the attached stream gets wrapped for compression *)
 | LGoDone (i : nat)         (* the compressor goroutine of stream i finishes *)
-| LServerDrop.              (* Request only: serveConn's keep-alive path sets ctx.Request.bodyStream = nil
-                               (after releasing it if it is a requestStream) just before Request.Reset *)
+| LServerDrop.              (* Request only: serveConn's keep-alive path, just before Request.Reset: a pooled
+                               requestStream is released and detached; a stream the handler attached stays
+                               in place (the streams of this model are such user streams) *)
 
 Fixpoint upd {A} (i : nat) (f : A -> A) (l : list A) : list A :=
   match l, i with
@@ -114,7 +115,7 @@ Definition lstep (k : mkind) (st : lstate) (o : lop) : option lstate :=
       end
   | LServerDrop =>
       match k with
-      | MReq => Some (mkLS (ls_streams st) None)
+      | MReq => Some st
       | MResp => None
       end
   | LGoDone i =>
